@@ -596,7 +596,25 @@ impl SimMpd {
                     for k in 0..shape.partial_fields {
                         partial.extend_from_slice(format!("partial: {}:{}\n", id, k).as_bytes());
                     }
-                    return Err(ack(code, index, "req", &format!("failed {}", id)));
+                    // The `{command}` of an error line is whatever name the server has for the
+                    // command: MPD's own names contain underscores (`replay_gain_status`), and
+                    // errors raised before a command was recognised carry none (`{}`). The
+                    // workload's one command word stands for all of them, so the name reported
+                    // varies with the id.
+                    let name = match id % 7 {
+                        3 => "replay_gain_req",
+                        5 => "",
+                        6 => "Req_X_",
+                        _ => "req",
+                    };
+                    // ... and the message is free text up to the line end
+                    let suffix = match (id / 7) % 5 {
+                        2 => " {x} [1@0]",
+                        3 => "  ",
+                        4 => " \u{e4}: y",
+                        _ => "",
+                    };
+                    return Err(ack(code, index, name, &format!("failed {}{}", id, suffix)));
                 }
                 let (frame, bytes, payloads) = req_frame_keys(
                     id,
